@@ -49,6 +49,22 @@ RULE = (
 ASSUMPTIONS = [
     "float arithmetic on the generated integer/dyadic inputs is exact",
 ]
+MANIFEST = {
+    "level_text": "Proof (Lean 4, kernel-checked, standard axioms only) about an exact model of the rainflow stack "
+    "machine: 2*sum(count) = L-1, row count, every row carries the range/sum of the two points its offsets name "
+    "(start < stop < L), the offsets-free variant computes the same table, the loop exits exactly where the code's "
+    "tests say (termination by well-founded recursion), the code's `j == 2` test equals ASTM E1049's 'Y contains the "
+    "starting point S' (refinement of an explicit-S transcription of the standard), and negate/shift/scale "
+    "equivariance over any ordered field. The model is tied to py_rain.py, to c_rain.c compiled from the working tree "
+    "with and without USE_FASTER_RAINFLOW_ROUTINE and to the cyclecount wrapper by exact correspondence "
+    "(exhaustive small alphabets + seeded random integer/dyadic sequences). Right level: the algorithm is a pure "
+    "stack machine on exactly comparable values, so the whole property is provable.",
+    "level_note": "Trusted: Lean kernel; propext, Classical.choice, Quot.sound; the Python harness; gcc. Theorems are "
+    "over exact arithmetic: for doubles whose differences round, C and Python perform identical IEEE operations but "
+    "agreement with the real-number ASTM procedure is not claimed. 'largest range is always counted' is checked by "
+    "the oracle on strictly alternating inputs, not proved. numba variant = same source text, not executed (numba absent).",
+    "technique": "Lean 4 proof (induction over the stack machine, refinement to an ASTM spec) + exact differential correspondence with py_rain and gcc-built c_rain",
+}
 PARTIAL = "missing (stretch): largest_range_counted for strictly alternating input is checked by the oracle only, not proved"
 
 
